@@ -31,7 +31,7 @@ ASSUMPTIONS = [
 ]
 FLOORS = {
     "quick": {"distinct_nontrivial": 20000, "pairs": 200000, "accepted_pairs": 15000, "law_instances": 20000, "e2e_lines": 1000},
-    "thorough": {"distinct_nontrivial": 100000, "pairs": 1500000, "law_instances": 100000},
+    "thorough": {"distinct_nontrivial": 100000, "pairs": 600000, "law_instances": 100000},
 }
 BARE_GENERICS = (list, dict, set, frozenset, tuple, type)
 
